@@ -327,7 +327,8 @@ end MetaP
 theorem _Validator._process_summary_eq_model (self : PyVal) (fld s : Str) :
     Gen.PySrc._Validator._process_summary self (.str s) = ofRes ofVal (Meta.procSummary fld (.str s)) := by
   unfold Gen.PySrc._Validator._process_summary Meta.procSummary
-  simp only [contains_str_singleton, ok_bind]
+  -- (`in_`, `truthy_bool`: the same test bound to a local first)
+  simp only [contains_str_singleton, ok_bind, PyRt.in_, pure_ok, truthy_bool]
   cases hc : s.contains 10 with
   | false => simp [ofRes, ofVal]
   | true => simp [ofRes, excName]
